@@ -16,6 +16,8 @@ BAD_FILES = [
     ("application whose name is a prefix of ours", "% RT OSC v0.3.1 savefile\n% app v1.2.3\n/pi 7\n"),
     ("application whose name ends with ours", "% RT OSC v0.3.1 savefile\n% xapp1 v1.2.3\n/pi 7\n"),
     ("application version missing", "% RT OSC v0.3.1 savefile\n% app1\n/pi 7\n"),
+    ("library version component beyond 255", "% RT OSC v0.256.1 savefile\n% app1 v1.2.3\n/pi 7\n"),
+    ("application version component beyond 255", "% RT OSC v0.3.1 savefile\n% app1 v1.2.300\n/pi 7\n"),
     ("unparsable line", "% RT OSC v0.3.1 savefile\n% app1 v1.2.3\n/pi 7\n/pf $$$\n"),
     ("unterminated string", "% RT OSC v0.3.1 savefile\n% app1 v1.2.3\n/ps \"abc\n"),
     ("line no port accepts (unknown port)", "% RT OSC v0.3.1 savefile\n% app1 v1.2.3\n/pi 7\n/nope 1\n"),
@@ -102,6 +104,8 @@ def run(ctx, prefix):
             else:
                 hook["discard"] = [a for a in touched if a.startswith(("/fx", "/sub", "/psub"))][:2]
                 hook["inc_addr"], hook["inc_by"] = "/dep", 1
+            if nh % 3 == 0:
+                hook["file_vers"] = [rng.choice([0, 255]), rng.randint(0, 255), rng.randint(0, 255), rng.choice([0, 1, 255]), rng.randint(0, 255), rng.randint(0, 255)]
             scripts.append(sc[:-1] + ([dict(op="set", addr="/pi", ty="i", v=40)] if mode in (2, 3) else []) + [hook])
         ctx.notes["scripts_loaded_through_hooks"] = nh
         # C14 at the resolution of float bit patterns: every sequence of FloatPort.tla (neighbouring floats, denormals, each port's bound and its neighbours)
